@@ -13,7 +13,7 @@ import sys
 import threading
 import time
 
-from ..engine import Part, Fail, Inconclusive, Driver, DriverDied, DriverTimeout, main
+from ..engine import Part, Fail, Inconclusive, Driver, DriverDied, DriverTimeout, main, canon
 from ..oracles import c05_dict, c05_harvest
 
 PROP = "C05"
@@ -346,6 +346,63 @@ def judge_case(ctx, case, resps, prof):
         if f is not None and first is None:
             first = f
     return first
+
+
+# ------------------------------------------------------------------------------------------------------------------
+# the process's local time zone: values written WITHOUT a zone are compared / subtracted at the local offset, so the
+# environment (TZ) is an input of such evaluations. Driver processes with TZ set to zones with daylight-saving time evaluate
+# zone-less values at and around the skipped and the repeated wall-clock hours of those zones.
+# ------------------------------------------------------------------------------------------------------------------
+
+LOCAL_ZONES = ["Europe/Warsaw", "America/New_York", "Australia/Lord_Howe", "America/St_Johns", "Pacific/Chatham"]
+LOCAL_TEMPLATES = ['date and time("%(a)s") < date and time("%(b)s")', 'date and time("%(a)s") = date and time("%(a)s")',
+                   'date and time("%(b)s") - date and time("%(a)s")', 'date and time("%(a)s") in [date and time("%(a)s")..date and time("%(b)s")]',
+                   'date and time("%(a)s") - date and time("2000-01-01T00:00:00Z")', 'date and time("%(a)s") < date and time("%(b)sZ")',
+                   'string(date and time("%(a)s")) + string(date and time("%(a)s").time offset)',
+                   'time("%(ta)s") < time("%(tb)s")', 'time("%(tb)s") - time("%(ta)s")', 'date and time("%(a)s") + duration("PT1H") > date and time("%(b)s")',
+                   'date("%(da)s") < date and time("%(b)s")', 'date and time("%(a)s") - duration("PT90M") = date and time("%(b)s")']
+_LOCAL_DRIVERS = {}
+
+
+def enum_local_zone(ctx):
+    from ..oracles import temporal_zones as TZ
+    import datetime as _dt
+    for zone in LOCAL_ZONES:
+        sw = TZ.switches(zone)
+        picked = sw if ctx.thorough() else sw[(ctx.seed % 4)::4][:6]
+        for t in picked:
+            before, after = TZ.offset_at(zone, t - 1), TZ.offset_at(zone, t)
+            for off in (before, after):
+                for minutes in (-90, -60, -31, -30, -1, 0, 1, 29, 30, 59, 60, 90):
+                    u = t + minutes * 60 + off
+                    a = _dt.datetime.utcfromtimestamp(u)
+                    b = _dt.datetime.utcfromtimestamp(u + 45 * 60)
+                    d = {"a": a.strftime("%Y-%m-%dT%H:%M:%S"), "b": b.strftime("%Y-%m-%dT%H:%M:%S"), "ta": a.strftime("%H:%M:%S"),
+                         "tb": b.strftime("%H:%M:%S"), "da": a.strftime("%Y-%m-%d")}
+                    for k, tpl in enumerate(LOCAL_TEMPLATES):
+                        if ctx.thorough() or (minutes + k) % 3 == 0:
+                            yield {"tz": zone, "t": tpl % d, "cls": "local-zone", "part": "local-zone"}
+
+
+def judge_local_zone(ctx, case, _resp, prof):
+    key = (case["tz"], prof)
+    d = _LOCAL_DRIVERS.get(key)
+    if d is None:
+        d = _LOCAL_DRIVERS[key] = Driver(prof, timeout=20.0, env={"TZ": case["tz"]})
+        d.start()
+    req = {"op": "eval", "text": case["t"]}
+    resp = d.safe(req)
+    ctx.note(key=[case["tz"], case["t"]] if prof == "release" else None, nontrivial=prof == "release" and "values" in resp,
+             labels=["part:local-zone", "local-zone:" + case["tz"], "build:" + prof, "evaluated" if "values" in resp else "not-evaluated"],
+             sample={"TZ": case["tz"], "text": case["t"], "answer": canon(resp)[:160]} if prof == "release" else None)
+    where = "[%s, TZ=%s] %s" % (prof, case["tz"], case["t"])
+    if "panic" in resp:
+        return Fail(panic_signature(ctx, resp.get("location")), "%s\n  panic '%s' at %s" % (where, str(resp.get("panic"))[:200], resp.get("location")))
+    if "died" in resp:
+        return Fail("C05/abort/local-zone", "%s\n  the process died (%s)" % (where, resp.get("died")))
+    if "timeout" in resp:
+        raise Inconclusive("no answer within 20 s for %s" % where)
+    return None
 
 
 def mkpart(ctx, name, gen=None):
@@ -1346,6 +1403,7 @@ def setup(ctx):
     ctx.p_entries = mkpart(ctx, "entries")
     ctx.p_names = mkpart(ctx, "names", gen_names)
     ctx.p_iter = mkpart(ctx, "iteration")
+    ctx.p_local = ctx.register(Part("local-zone", None, lambda case: [], judge_local_zone, profile="both"))
     ctx.p_fuzz = mkpart(ctx, "fuzz")
     ctx.p_grammar = mkpart(ctx, "grammar", gen_grammar)
     ctx.max_violations = 10 ** 6 if EXPLORE else 1
@@ -1381,6 +1439,13 @@ def run(ctx):
     ctx.extra["alphabet"] = len(ALPHABET)
     ctx.extra["zone_transition_instants"] = len(zt())
 
+    if want(ctx.p_local):
+        ctx.enumerate(ctx.p_local, enum_local_zone(ctx), batch=200,
+                      name="zone-less values around the daylight-saving switches of the process's own time zone (TZ = 5 zones)", exhaustive=ctx.thorough())
+        for d in _LOCAL_DRIVERS.values():
+            d.stop()
+        _LOCAL_DRIVERS.clear()
+        done(ctx, "local zone")
     if want(ctx.p_iter):
         set_budget(ctx, ITER_BUDGET)
         ctx.enumerate(ctx.p_iter, enum_iteration(ctx, False), name="iteration ranges at the integer edges + recursion depths", batch=1000)
